@@ -1,0 +1,55 @@
+//go:build verif
+
+package loader
+
+// Contracts for govc (see /verif/DESIGN.md; oracles: /verif/spec/40_constraints.gvs, 42_nodes.gvs).
+// Comment-only file.
+
+// C08: "paired bounds are ordered (min<=max, strictly when either is exclusive)"
+//@ func (schemaCompiler).checkMinAndMax(node)
+//@   props C08 C10
+//@   requires isNode(node) && consReady(node) && consKinds(node)
+//@   nopanic
+//@   ensures (result != nil) <==> (hasRule(node, constraint.MinConstraintType) && hasRule(node, constraint.MaxConstraintType)
+//@             && ((minOf(node).exclusive || maxOf(node).exclusive) ? cmpExact(*minOf(node).min, *maxOf(node).max) >= 0 : cmpExact(*minOf(node).min, *maxOf(node).max) == 1))
+//@   ensures result != nil ==> typeis(result, errors.Errorf) && errWF(result)
+
+//@ func (schemaCompiler).checkMinLengthAndMaxLength(node)
+//@   props C08
+//@   requires isNode(node) && consReady(node) && consKinds(node)
+//@   nopanic
+//@   ensures (result != nil) <==> (hasRule(node, constraint.MinLengthConstraintType) && hasRule(node, constraint.MaxLengthConstraintType)
+//@             && unbox(consOf(node).data[constraint.MinLengthConstraintType], *constraint.MinLength).value > unbox(consOf(node).data[constraint.MaxLengthConstraintType], *constraint.MaxLength).value)
+//@   ensures result != nil ==> typeis(result, errors.Errorf) && errWF(result)
+
+//@ func (schemaCompiler).checkMinItemsAndMaxItems(node)
+//@   props C08
+//@   requires isNode(node) && consReady(node) && consKinds(node)
+//@   nopanic
+//@   ensures (result != nil) <==> (hasRule(node, constraint.MinItemsConstraintType) && hasRule(node, constraint.MaxItemsConstraintType)
+//@             && unbox(consOf(node).data[constraint.MinItemsConstraintType], *constraint.MinItems).value > unbox(consOf(node).data[constraint.MaxItemsConstraintType], *constraint.MaxItems).value)
+//@   ensures result != nil ==> typeis(result, errors.Errorf) && errWF(result)
+
+// C08: "exclusive flags have their bound"; C02: exclusive:false is inert
+//@ func (schemaCompiler).exclusiveMinimumConstraint(node)
+//@   props C08 C02
+//@   requires isNode(node) && consReady(node) && consKinds(node)
+//@   maypanic
+//@   modifies consOf(node).data[*], consOf(node).order, consOf(node).order[*], minOf(node).exclusive
+//@   ensures panics <==> (old(hasRule(node, constraint.ExclusiveMinimumConstraintType)) && !old(hasRule(node, constraint.MinConstraintType)))
+//@   ensures panics ==> typeis(pv, errors.ErrorCode) && ival(pv) == errors.ErrConstraintMinNotFound
+//@   ensures normal ==> consReady(node) && !hasRule(node, constraint.ExclusiveMinimumConstraintType)
+//@   ensures normal && old(hasRule(node, constraint.ExclusiveMinimumConstraintType)) ==> minOf(node).exclusive == (old(minOf(node).exclusive) || old(unbox(consOf(node).data[constraint.ExclusiveMinimumConstraintType], *constraint.ExclusiveMinimum).exclusive))
+//@   ensures normal && !old(hasRule(node, constraint.ExclusiveMinimumConstraintType)) ==> (hasRule(node, constraint.MinConstraintType) ==> minOf(node).exclusive == old(minOf(node).exclusive))
+//@   ensures normal ==> (forall q constraint.Type :: q != constraint.ExclusiveMinimumConstraintType ==> hasRule(node, q) == old(hasRule(node, q)) && consOf(node).data[q] == old(consOf(node).data[q]))
+
+//@ func (schemaCompiler).exclusiveMaximumConstraint(node)
+//@   props C08 C02
+//@   requires isNode(node) && consReady(node) && consKinds(node)
+//@   maypanic
+//@   modifies consOf(node).data[*], consOf(node).order, consOf(node).order[*], maxOf(node).exclusive
+//@   ensures panics <==> (old(hasRule(node, constraint.ExclusiveMaximumConstraintType)) && !old(hasRule(node, constraint.MaxConstraintType)))
+//@   ensures panics ==> typeis(pv, errors.ErrorCode) && ival(pv) == errors.ErrConstraintMaxNotFound
+//@   ensures normal ==> consReady(node) && !hasRule(node, constraint.ExclusiveMaximumConstraintType)
+//@   ensures normal && old(hasRule(node, constraint.ExclusiveMaximumConstraintType)) ==> maxOf(node).exclusive == (old(maxOf(node).exclusive) || old(unbox(consOf(node).data[constraint.ExclusiveMaximumConstraintType], *constraint.ExclusiveMaximum).exclusive))
+//@   ensures normal ==> (forall q constraint.Type :: q != constraint.ExclusiveMaximumConstraintType ==> hasRule(node, q) == old(hasRule(node, q)) && consOf(node).data[q] == old(consOf(node).data[q]))
